@@ -237,6 +237,9 @@ def run(ctx: Ctx, env):
     ctx.assume("SLY tries the rules in class-body order and Python's re picks the first alternative that matches (replicated)")
     ctx.trust("OData ABNF (odata-abnf-construction-rules) for primitive literals and identifiers; ISO 8601 / datetime.date year range 0001-9999")
 
+    # ---- R6 the Python value of the other single-token literals (last: a hand-written conversion ends the run without a verdict) ----
+    _standard_conversions(ctx, env)
+
 
 def _example(d: rx.DFA, alpha, kind: str) -> Optional[str]:
     w = rx.shortest_accepted(d)
@@ -471,6 +474,50 @@ def _duration_pattern(ctx: Ctx, env, alpha, rules, rule_of_kind):
     dur = repo.classes.get("odata_query.ast.Duration")
     if dur and "unpack" in dur.methods and "py_val" in dur.methods:
         _duration_methods(ctx, env, dur, dp)
+
+
+# ------------------------------------------------------------------------------------------------------------------
+# py_val of the single-token literals: the standard conversion of the literal's own text
+# ------------------------------------------------------------------------------------------------------------------
+STANDARD_CONVERSIONS = {
+    "Integer": ("call(<builtins.int>,[field(node,'val')],[])", "call(<builtins.int>,[field(node,'val'),Const(10)],[])"),
+    "Float": ("call(<builtins.float>,[field(node,'val')],[])",),
+    "String": ("field(node,'val')",),
+    "Null": ("Const(None)",),
+    "Date": ("call(<datetime.date.fromisoformat>,[field(node,'val')],[])",),
+    "Time": ("call(<datetime.time.fromisoformat>,[field(node,'val')],[])",),
+    "DateTime": ("call(<dateutil.parser.isoparse>,[field(node,'val')],[])", "call(<dateutil.parser.isoparser.isoparse>,[field(node,'val')],[])"),
+    "GUID": ("call(<uuid.UUID>,[field(node,'val')],[])", "call(<uuid.UUID>,[],[['hex',field(node,'val')]])"),
+}
+
+
+def _standard_conversions(ctx: Ctx, env):
+    """R6: the Python value of a number, string, date, time, date-time or GUID literal is the standard-library / dateutil
+    conversion of the literal's text (trusted to implement the calendar and numeric meaning). Anything else is hand-written
+    arithmetic on run-time values: its agreement with the meaning cannot be decided here, so the check stops without a verdict
+    rather than call it right or wrong."""
+    from ..values import NodeV
+    repo = env.repo
+    n = 0
+    for kind, accepted in STANDARD_CONVERSIONS.items():
+        r = repo.lookup_method("odata_query.ast." + kind, "py_val")
+        if r is None:
+            raise AnalysisError(f"ast.{kind}.py_val not found", env.schema.module.rel)
+        ci, fn = r
+        interp = env.interp()
+        paths = interp.explore(lambda it, ci=ci, fn=fn, kind=kind: (ci.module, fn, [NodeV("node", {kind})], {}, ci.qual))
+        for p in paths:
+            if p.outcome != "return":
+                continue
+            n += 1
+            got = repr(p.value)
+            if got not in accepted:
+                raise AnalysisError(f"ast.{kind}.py_val computes `{got[:160]}` instead of the standard conversion of the literal's text "
+                                    f"({accepted[0]}): whether hand-written conversion agrees with the numeric/calendar meaning is a property of "
+                                    "run-time values that this analysis cannot decide", ci.module.loc(fn))
+            ctx.ok("R6.value-is-the-standard-conversion", kind, got)
+    ctx.floor("py_val conversions checked", n, 8)
+    ctx.trust("int/float, datetime.date/time.fromisoformat, dateutil.parser.isoparse and uuid.UUID convert well-formed text to its numeric/calendar meaning")
 
 
 # ------------------------------------------------------------------------------------------------------------------
